@@ -5,6 +5,7 @@
 -/
 import OrasModel.Proofs.Stores
 import OrasModel.Spec.AbsStore
+import OrasModel.Gen.Facts
 namespace Oras.Props.C06
 open Oras
 
@@ -63,9 +64,10 @@ open FileSt in
     `Push` (named or not, verified or not, with duplicate restoration) and `Tag` keep it. -/
 theorem c06_file_inv_reachable (c : StoreCfg) :
     FileSt.Inv FileSt.empty ∧
-    (∀ st d good, FileSt.Inv st → FileSt.Inv (push c false st d good).1) ∧
+    (∀ st d good forceCAS noOverwrite removeOnFail, FileSt.Inv st →
+      FileSt.Inv (push c false st d good forceCAS noOverwrite removeOnFail).1) ∧
     (∀ st d r, FileSt.Inv st → FileSt.Inv (tag c st d r).1) := by
-  refine ⟨inv_empty, fun st d good h => inv_push c st d good h, ?_⟩
+  refine ⟨inv_empty, fun st d good fc no rf h => inv_push c st d good h fc no rf, ?_⟩
   intro st d r h
   unfold tag
   cases r with
@@ -107,9 +109,10 @@ open FileSt in
     an error (duplicate name, already exists, content that does not verify), `Exists` and
     `Fetch` answer every descriptor exactly as before. -/
 theorem c06_file_failed_push_is_noop (c : StoreCfg) (st : FileSt) (d : SDesc) (good : Bool) (e : SErr)
-    (h : FileSt.Inv st) (he : (push c false st d good).2 = .error e) :
-    ∀ q, exists_ c (push c false st d good).1 q = exists_ c st q ∧
-         fetch c (push c false st d good).1 q = fetch c st q := by
+    (forceCAS noOverwrite removeOnFail : Bool)
+    (h : FileSt.Inv st) (he : (push c false st d good forceCAS noOverwrite removeOnFail).2 = .error e) :
+    ∀ q, exists_ c (push c false st d good forceCAS noOverwrite removeOnFail).1 q = exists_ c st q ∧
+         fetch c (push c false st d good forceCAS noOverwrite removeOnFail).1 q = fetch c st q := by
   unfold push at he ⊢
   cases hname : d.name with
   | none =>
@@ -124,25 +127,89 @@ theorem c06_file_failed_push_is_noop (c : StoreCfg) (st : FileSt) (d : SDesc) (g
     unfold pushNamed at he ⊢
     by_cases hn : nm ∈ st.names
     · simp [hn]
-    · cases good with
-      | true => simp [hn] at he
-      | false =>
-        simp only [hn, if_false, Bool.false_eq_true]
-        intro q
-        constructor
-        · rfl
-        · -- only the file at the not-yet-existing name `nm` changed; every path the map
-          -- points to is an existing name
-          unfold fetch
-          simp only [pathOf_writeFile]
-          have hgate : gate (st.writeFile nm .garbage) q = gate st q := rfl
-          have hfb : (st.writeFile nm .garbage).fallback = st.fallback := rfl
-          rw [hgate, hfb]
-          cases hp : st.pathOf (c.dig q.node) with
-          | none => rfl
-          | some p =>
-            have hpn : p ≠ nm := fun e' => hn (e' ▸ (h.d2p _ p hp).2)
-            simp only [fileAt_writeFile, hpn, if_false]
+    · by_cases ho : noOverwrite = true ∧ (st.fileAt nm).isSome = true
+      · simp [hn, ho]
+      · cases good with
+        | true => simp [hn, ho] at he
+        | false =>
+          simp only [hn, ho, if_false, Bool.false_eq_true]
+          intro q
+          cases removeOnFail with
+          | true =>
+            simp only [if_true]
+            constructor
+            · rfl
+            · -- the removed file was not one the digest map points to
+              unfold fetch
+              simp only [pathOf_removeFile]
+              have hgate : gate (st.removeFile nm) q = gate st q := rfl
+              have hfb : (st.removeFile nm).fallback = st.fallback := rfl
+              rw [hgate, hfb]
+              cases hp : st.pathOf (c.dig q.node) with
+              | none => rfl
+              | some p =>
+                have hpn : p ≠ nm := fun e' => hn (e' ▸ (h.d2p _ p hp).2)
+                simp only [fileAt_removeFile_ne _ _ _ hpn]
+          | false =>
+            simp only [Bool.false_eq_true, if_false]
+            constructor
+            · rfl
+            · -- only the file at the not-yet-existing name `nm` changed; every path the map
+              -- points to is an existing name
+              unfold fetch
+              simp only [pathOf_writeFile]
+              have hgate : gate (st.writeFile nm .garbage) q = gate st q := rfl
+              have hfb : (st.writeFile nm .garbage).fallback = st.fallback := rfl
+              rw [hgate, hfb]
+              cases hp : st.pathOf (c.dig q.node) with
+              | none => rfl
+              | some p =>
+                have hpn : p ≠ nm := fun e' => hn (e' ▸ (h.d2p _ p hp).2)
+                simp only [fileAt_writeFile, hpn, if_false]
+
+open FileSt in
+/-- **A failed push does not stand in the way of its own retry**, also under
+    `DisableOverwrite` — given that the partially written file is removed (the code since the
+    repair of F21): after a push to a free name failed verification, the same push with the
+    right content is accepted.  Without the removal it is refused (`overwrite`): the
+    counterexample that was replayed on the code. -/
+theorem c06_file_retry_after_failed_push (c : StoreCfg) (st : FileSt) (n : Node) (nm : Nat)
+    (hn : nm ∉ st.names) (hfree : st.fileAt nm = none) (hb : c.isMan n = false) :
+    let afterFail := (push c false st ⟨n, some nm⟩ false false true true).1
+    (push c false afterFail ⟨n, some nm⟩ true false true true).2 = .ok () ∧
+    (push c false (push c false st ⟨n, some nm⟩ false false true false).1 ⟨n, some nm⟩ true false true false).2
+      = .error .overwrite := by
+  have hrm : (st.removeFile nm).fileAt nm = none := by
+    unfold fileAt removeFile
+    simp only
+    have : ∀ l : List (Nat × FileBytes), (l.filter (·.1 ≠ nm)).find? (·.1 = nm) = none := by
+      intro l
+      induction l with
+      | nil => rfl
+      | cons e es ih =>
+        rw [List.filter_cons]
+        by_cases he : e.1 = nm
+        · simp [he, ih]
+        · simp only [ne_eq, he, not_false_eq_true, decide_true, if_true]
+          rw [List.find?_cons]
+          simp [he, ih]
+    rw [this]; rfl
+  have hwr : (st.writeFile nm .garbage).fileAt nm = some .garbage := by
+    rw [fileAt_writeFile]; simp
+  have h1 : (push c false st ⟨n, some nm⟩ false false true true).1 = st.removeFile nm := by
+    simp [push, pushNamed, hn, hfree]
+  have h2 : (push c false st ⟨n, some nm⟩ false false true false).1 = st.writeFile nm .garbage := by
+    simp [push, pushNamed, hn, hfree]
+  have hn1 : nm ∉ (st.removeFile nm).names := hn
+  have hn2 : nm ∉ (st.writeFile nm .garbage).names := hn
+  constructor
+  · show (push c false (push c false st ⟨n, some nm⟩ false false true true).1 ⟨n, some nm⟩ true false true true).2 = _
+    rw [h1]
+    simp only [push, pushNamed, hn1, hrm, hb]
+    simp
+  · rw [h2]
+    simp only [push, pushNamed, hn2, hwr]
+    simp
 
 open FileSt in
 /-- **A name is written once**: pushing to a name that exists is refused with
@@ -162,7 +229,7 @@ theorem c06_file_fetch_after_push (c : StoreCfg) (st : FileSt) (n : Node) (nm : 
     fetch c st' ⟨n, some nm⟩ = .ok (.ok (c.dig n)) ∧ fetch c st' ⟨n, none⟩ = .ok (.ok (c.dig n)) := by
   have hpath : ∀ (l : List (Nat × Nat)), (((c.dig n, nm) :: l.filter (·.1 ≠ c.dig n)).find? (·.1 = c.dig n)).map (·.2) = some nm := by
     intro l; simp [List.find?]
-  simp only [push, pushNamed, hn, if_false, Bool.false_eq_true, if_true, hb]
+  simp only [push, pushNamed, hn, if_false, Bool.false_eq_true, if_true, hb, false_and, Bool.not_false, Bool.and_true]
   refine ⟨trivial, ?_, ?_, ?_, ?_⟩
   · simp [exists_, pathOf, List.find?]
   · simp [exists_, pathOf, List.find?]
@@ -179,6 +246,12 @@ theorem c06_file_tag_resolve (c : StoreCfg) (st : FileSt) (d : SDesc) (r : Nat) 
     (exists_ c st d = true → (tag c st d (some r)).2 = .ok () ∧ resolve (tag c st d (some r)).1 (some r) = .ok d) := by
   refine ⟨rfl, rfl, fun h => by simp [tag, h], fun h => ?_⟩
   simp [tag, h, resolve, List.find?]
+
+/-- **Source facts** (regenerated): `saveFile` records the digest → path entry after the
+    verified copy, and `pushFile` removes the file it created when that copy fails — the two
+    parameters the file-store model is instantiated with by the driver. -/
+theorem c06_source_facts :
+    Gen.fileRecordsPathAfterCopy = true ∧ Gen.fileRemovesPartialOnFailure = true := by decide
 
 /-- The order of the source matters: recording the digest → path entry *before* the
     verified copy makes a failed push visible — `Exists` turns true for the plain
